@@ -1,75 +1,2 @@
-// ---- unit prelude: codec_core (C13, binary codecs of the core wire types) ---------------------------------------------
-// Stand-ins (R4), the wire-format specification (`enc_*`, `*_code`, `*_valid`) and nothing else. No body of /repo is
-// re-typed here: the `enc_*` functions are the wire layout as the protocol documents it (kind code, length, payload;
-// integers little-endian) and BOTH directions of every pair are checked against them.
-
-global size_of usize == 8;   // 64-bit target (u8/u32 lengths widen losslessly to usize)
-
-// the error variants the extracted text builds
-pub enum IggyError { InvalidIdentifier, InvalidCommand, InvalidNumberEncoding, Other }
-
-// IggyByteSize: a byte count (byte_unit::Byte inside). From<u64> / as_bytes_u64 / as_bytes_usize are mutually inverse
-// conversions of the same number (sdk/src/utils/byte_size.rs).
-#[derive(Clone, Copy)]
-pub struct IggyByteSize(pub u64);
-impl From<u64> for IggyByteSize {
-    fn from(byte_size: u64) -> (r: Self) { IggyByteSize(byte_size) }
-}
-impl vstd::std_specs::convert::FromSpecImpl<u64> for IggyByteSize {
-    open spec fn obeys_from_spec() -> bool { true }
-    open spec fn from_spec(v: u64) -> Self { IggyByteSize(v) }
-}
-impl IggyByteSize {
-    pub fn as_bytes_u64(&self) -> (r: u64) ensures r == self.0, { self.0 }
-    pub fn as_bytes_usize(&self) -> (r: usize) ensures r == self.0, { self.0 as usize }
-}
-
-// derived PartialEq on field-less enums is structural equality (A-std)
-impl vstd::std_specs::cmp::PartialEqSpecImpl for IdKind {
-    open spec fn obeys_eq_spec() -> bool { true }
-    open spec fn eq_spec(&self, other: &IdKind) -> bool { *self == *other }
-}
-impl vstd::std_specs::cmp::PartialEqSpecImpl for ConsumerKind {
-    open spec fn obeys_eq_spec() -> bool { true }
-    open spec fn eq_spec(&self, other: &ConsumerKind) -> bool { *self == *other }
-}
-impl vstd::std_specs::cmp::PartialEqSpecImpl for PartitioningKind {
-    open spec fn obeys_eq_spec() -> bool { true }
-    open spec fn eq_spec(&self, other: &PartitioningKind) -> bool { *self == *other }
-}
-impl vstd::std_specs::cmp::PartialEqSpecImpl for PollingKind {
-    open spec fn obeys_eq_spec() -> bool { true }
-    open spec fn eq_spec(&self, other: &PollingKind) -> bool { *self == *other }
-}
-
-// ---- the wire format (specification) ----------------------------------------------------------------------------------
-// code tables of the binary protocol (one byte each)
-pub open spec fn idkind_code(k: IdKind) -> u8 { match k { IdKind::Numeric => 1, IdKind::String => 2 } }
-pub open spec fn consumerkind_code(k: ConsumerKind) -> u8 { match k { ConsumerKind::Consumer => 1, ConsumerKind::ConsumerGroup => 2 } }
-pub open spec fn partitioningkind_code(k: PartitioningKind) -> u8 {
-    match k { PartitioningKind::Balanced => 1, PartitioningKind::PartitionId => 2, PartitioningKind::MessagesKey => 3 }
-}
-pub open spec fn pollingkind_code(k: PollingKind) -> u8 {
-    match k { PollingKind::Offset => 1, PollingKind::Timestamp => 2, PollingKind::First => 3, PollingKind::Last => 4, PollingKind::Next => 5 }
-}
-
-// Identifier:  kind:u8 | length:u8 | value[length]          (length 1..=255; numeric identifiers carry 4 bytes)
-pub open spec fn enc_identifier(i: Identifier) -> Seq<u8> { seq![idkind_code(i.kind), i.length] + i.value@ }
-pub open spec fn id_valid(i: Identifier) -> bool {
-    i.length >= 1 && i.value@.len() == i.length && (i.kind == IdKind::Numeric ==> i.length == 4)
-}
-// equality of the Rust values (derived PartialEq compares the Vec contents)
-pub open spec fn id_eq(a: Identifier, b: Identifier) -> bool { a.kind == b.kind && a.length == b.length && a.value@ == b.value@ }
-
-// Consumer:  kind:u8 | Identifier
-pub open spec fn enc_consumer(c: Consumer) -> Seq<u8> { seq![consumerkind_code(c.kind)] + enc_identifier(c.id) }
-pub open spec fn consumer_valid(c: Consumer) -> bool { id_valid(c.id) }
-pub open spec fn consumer_eq(a: Consumer, b: Consumer) -> bool { a.kind == b.kind && id_eq(a.id, b.id) }
-
-// Partitioning:  kind:u8 | length:u8 | value[length]        (length 0 for Balanced, 4 for PartitionId, 1..=255 for MessagesKey)
-pub open spec fn enc_partitioning(p: Partitioning) -> Seq<u8> { seq![partitioningkind_code(p.kind), p.length] + p.value@ }
-pub open spec fn part_valid(p: Partitioning) -> bool { p.value@.len() == p.length }
-pub open spec fn part_eq(a: Partitioning, b: Partitioning) -> bool { a.kind == b.kind && a.length == b.length && a.value@ == b.value@ }
-
-// PollingStrategy:  kind:u8 | value:u64 LE
-pub open spec fn enc_strategy(s: PollingStrategy) -> Seq<u8> { seq![pollingkind_code(s.kind)] + le64(s.value) }
+// codec_core has no unit-private prelude: stand-ins, the wire-format specification (`enc_*`, `*_code`, `*_valid`) and the
+// layout lemmas live in vx/prelude/wire_core.rs (shared with codec_requests), the byte model in vx/prelude/bytes.rs.
